@@ -322,18 +322,21 @@ func build(r *R) error {
 			ctx = logtags.AddTag(ctx, r.In[i], val)
 		}
 		res = errors.WithContextTags(k0, ctx)
+		var kinds []int
 		if b := logtags.FromContext(ctx); b != nil {
 			for _, t := range b.Get() {
 				kv = append(kv, t.Key(), t.ValueStr())
+				switch t.Value().(type) {
+				case nil:
+					kinds = append(kinds, 2)
+				case redact.SafeValue:
+					kinds = append(kinds, 1)
+				default:
+					kinds = append(kinds, 0)
+				}
 			}
 		}
-		r.S = append(kv, "\x00RED")
-		if res != nil && k0 != nil && len(kv) > 0 {
-			// the layer's safe details, as computed by the library + redact for the real value kinds
-			if sd, ok := res.(errbase.SafeDetailer); ok {
-				r.S = append(r.S, sd.SafeDetails()...)
-			}
-		}
+		r.S, r.N = kv, kinds
 	case "assertion":
 		res = errors.WithAssertionFailure(k0)
 	case "safedetails":
